@@ -42,6 +42,8 @@ type Solver struct {
 	Kind    string
 	log     io.Writer
 	memo    map[string]Res
+	lits    map[int]string // term id -> assumption literal
+	Assuming bool
 	TimeoutMs int
 }
 
@@ -72,7 +74,7 @@ func NewSolver(tt *TermTable, kind string, timeoutMs int) (*Solver, error) {
 		return nil, err
 	}
 	s := &Solver{tt: tt, cmd: cmd, in: in, out: bufio.NewReaderSize(outp, 1<<20), defined: map[int]bool{},
-		declV: map[string]bool{}, Kind: kind, memo: map[string]Res{}, TimeoutMs: timeoutMs}
+		declV: map[string]bool{}, Kind: kind, memo: map[string]Res{}, TimeoutMs: timeoutMs, lits: map[int]string{}, Assuming: os.Getenv("GOSYM_PUSHPOP") == ""}
 	if p := os.Getenv("GOSYM_SMTLOG"); p != "" {
 		f, _ := os.Create(fmt.Sprintf("%s.%d.smt2", p, os.Getpid()))
 		s.log = f
@@ -161,6 +163,19 @@ func (s *Solver) define(t *Term) {
 	}
 }
 
+// lit returns the assumption literal guarding term c (asserted once as lit => c).
+func (s *Solver) lit(c *Term) string {
+	if l, ok := s.lits[c.ID]; ok {
+		return l
+	}
+	s.define(c)
+	l := fmt.Sprintf("p%d", c.ID)
+	s.send(fmt.Sprintf("(declare-const %s Bool)", l))
+	s.send(fmt.Sprintf("(assert (=> %s %s))", l, ref(c)))
+	s.lits[c.ID] = l
+	return l
+}
+
 // Sync makes the solver's assertion stack equal to pc.
 func (s *Solver) Sync(pc []*Term) {
 	n := 0
@@ -208,19 +223,40 @@ func (s *Solver) Check(pc []*Term, extra []*Term, wantModel []*Term) (Res, map[*
 			return r, nil
 		}
 	}
-	s.Sync(pc)
-	for _, e := range extra {
-		s.define(e)
-	}
 	for _, m := range wantModel {
 		s.define(m)
 	}
 	t0 := time.Now()
-	s.send("(push 1)")
-	for _, e := range extra {
-		s.send("(assert " + ref(e) + ")")
+	if s.Assuming {
+		var ls []string
+		seen := map[int]bool{}
+		for _, c := range pc {
+			if !seen[c.ID] {
+				seen[c.ID] = true
+				ls = append(ls, s.lit(c))
+			}
+		}
+		for _, c := range extra {
+			if c.Op == OpConst {
+				continue
+			}
+			if !seen[c.ID] {
+				seen[c.ID] = true
+				ls = append(ls, s.lit(c))
+			}
+		}
+		s.send("(check-sat-assuming (" + strings.Join(ls, " ") + "))")
+	} else {
+		s.Sync(pc)
+		for _, e := range extra {
+			s.define(e)
+		}
+		s.send("(push 1)")
+		for _, e := range extra {
+			s.send("(assert " + ref(e) + ")")
+		}
+		s.send("(check-sat)")
 	}
-	s.send("(check-sat)")
 	line := s.readLine()
 	res := Unknown
 	switch line {
@@ -256,7 +292,9 @@ func (s *Solver) Check(pc []*Term, extra []*Term, wantModel []*Term) (Res, map[*
 			}
 		}
 	}
-	s.send("(pop 1)")
+	if !s.Assuming {
+		s.send("(pop 1)")
+	}
 	s.Stats.Queries++
 	s.Stats.Seconds += time.Since(t0).Seconds()
 	switch res {
